@@ -38,6 +38,19 @@ BIN = {ast.Add: ast.Sub, ast.Sub: ast.Add, ast.Mult: ast.Add, ast.BitOr: ast.Bit
        ast.Mod: ast.Mult, ast.FloorDiv: ast.Mult}
 
 
+EXTRA = False
+NEW_KINDS = {'method', 'func', 'argswap', 'forrev', 'forskip', 'idxswap', 'slicedrop', 'elif2if', 'kwdrop'}
+METHOD_SWAP = {'append': 'extend', 'startswith': 'endswith', 'endswith': 'startswith', 'lstrip': 'rstrip',
+               'rstrip': 'strip', 'strip': 'rstrip', 'partition': 'rpartition', 'rpartition': 'partition',
+               'insert': 'append', 'extend': 'append', 'add': 'discard', 'update': 'setdefault', 'pop': 'get',
+               'get': 'pop', 'setdefault': 'get', 'lower': 'upper', 'isalpha': 'isalnum', 'find': 'rfind',
+               'items': 'keys', 'values': 'keys', 'split': 'rsplit', 'join': 'format', 'sort': 'reverse',
+               'clear': 'copy', 'isspace': 'isalpha', 'match': 'search', 'fullmatch': 'match', 'search': 'match'}
+FUNC_SWAP = {'any': 'all', 'all': 'any', 'sorted': 'list', 'reversed': 'list', 'min': 'max', 'max': 'min',
+             'set': 'list', 'list': 'set', 'len': 'id', 'isinstance': 'issubclass', 'next': 'list', 'bool': 'str',
+             'dict': 'list', 'tuple': 'list', 'enumerate': 'zip', 'zip': 'enumerate', 'int': 'float'}
+
+
 def is_docstring(node, parents):
     p = parents.get(node)
     return isinstance(p, ast.Expr)
@@ -89,6 +102,29 @@ def sites(tree):
         elif isinstance(n, ast.Slice):
             if n.lower is not None and isinstance(n.lower, ast.Constant) and isinstance(n.lower.value, int):
                 pass  # covered by const
+        if EXTRA:
+            if isinstance(n, ast.Call) and isinstance(n.func, ast.Attribute) and n.func.attr in METHOD_SWAP:
+                yield ('method', n, None)
+            if isinstance(n, ast.Call) and isinstance(n.func, ast.Name) and n.func.id in FUNC_SWAP:
+                yield ('func', n, None)
+            if isinstance(n, ast.Call) and len(n.args) == 2 and not n.keywords and not any(
+                    isinstance(a, ast.Starred) for a in n.args):
+                yield ('argswap', n, None)
+            if isinstance(n, ast.For) and not isinstance(n.iter, ast.Call):
+                yield ('forrev', n, None)
+            if isinstance(n, ast.For):
+                yield ('forskip', n, None)
+            if isinstance(n, ast.Subscript) and isinstance(n.slice, ast.Constant) and n.slice.value in (0, 2) \
+                    and isinstance(n.ctx, ast.Load):
+                yield ('idxswap', n, None)
+            if isinstance(n, ast.Subscript) and isinstance(n.slice, ast.Slice) and isinstance(n.ctx, ast.Load):
+                yield ('slicedrop', n, None)
+            if isinstance(n, ast.If) and n.orelse and len(n.orelse) == 1 and isinstance(n.orelse[0], ast.If):
+                yield ('elif2if', n, None)
+            if isinstance(n, ast.Call) and n.keywords:
+                for i in range(len(n.keywords)):
+                    if n.keywords[i].arg is not None:
+                        yield ('kwdrop', n, i)
         if isinstance(n, (ast.Expr, ast.Assign, ast.AugAssign, ast.Raise, ast.Delete)) and isinstance(
                 parents.get(n), (ast.FunctionDef, ast.If, ast.For, ast.While, ast.With, ast.Try, ast.ExceptHandler)):
             if isinstance(n, ast.Expr) and isinstance(n.value, ast.Constant):
@@ -138,6 +174,41 @@ def apply(kind, n, extra):
     if kind == 'retnone':
         n.value = ast.Constant(None)
         return 'return None'
+    if kind == 'method':
+        old = n.func.attr
+        n.func.attr = METHOD_SWAP[old]
+        if old == 'insert' and len(n.args) == 2:
+            n.args = n.args[1:]
+        return f'.{old} -> .{n.func.attr}'
+    if kind == 'func':
+        old = n.func.id
+        n.func.id = FUNC_SWAP[old]
+        return f'{old}() -> {n.func.id}()'
+    if kind == 'argswap':
+        n.args = [n.args[1], n.args[0]]
+        return 'swap the two arguments'
+    if kind == 'forrev':
+        n.iter = ast.Call(ast.Name('reversed', ast.Load()), [ast.Call(ast.Name('list', ast.Load()), [n.iter], [])], [])
+        return 'iterate in reverse'
+    if kind == 'forskip':
+        n.iter = ast.Subscript(ast.Call(ast.Name('list', ast.Load()), [n.iter], []),
+                               ast.Slice(ast.Constant(1), None, None), ast.Load())
+        return 'skip the first iteration'
+    if kind == 'idxswap':
+        old = n.slice.value
+        n.slice = ast.Constant(2 - old)
+        return f'[{old}] -> [{2 - old}]'
+    if kind == 'slicedrop':
+        n.slice = ast.Slice(None, None, None)
+        return 'slice -> [:]'
+    if kind == 'elif2if':
+        # not applicable structurally without moving nodes: turn "elif c" into "elif True"
+        n.orelse[0].test = ast.Constant(True)
+        return 'elif cond -> else'
+    if kind == 'kwdrop':
+        name = n.keywords[extra].arg
+        del n.keywords[extra]
+        return f'drop keyword {name}='
     if kind == 'delstmt':
         old = type(n).__name__
         n.__class__ = ast.Pass
@@ -157,6 +228,9 @@ def mutants_of(relpath):
         for j, (kind, node, extra) in enumerate(sites(tree)):
             if j == idx:
                 line = getattr(node, 'lineno', 0)
+                if EXTRA and kind not in NEW_KINDS:
+                    desc = None
+                    break
                 try:
                     desc = apply(kind, node, extra)
                 except Exception as e:  # noqa: BLE001
@@ -252,10 +326,15 @@ def main():
     ap.add_argument('--oracle-n', type=int, default=400)
     ap.add_argument('--seed', type=int, default=1)
     ap.add_argument('--scratch', default='/tmp/mut')
+    ap.add_argument('--extra', action='store_true', help='second operator set only (method/function swaps, argument '
+                    'swaps, loop order, index swaps, dropped slices and keywords)')
     ap.add_argument('--rerun', help='re-evaluate only the mutants that survived everything in this results file')
     ap.add_argument('--emit', nargs=3, metavar=('FILE', 'IDX', 'DIR'),
                     help='write a copy of /repo (penman/, tests/) with mutant IDX of FILE into DIR')
     args = ap.parse_args()
+    if args.extra:
+        global EXTRA
+        EXTRA = True
     if args.emit:
         f, idx, d = args.emit
         for meta, new in mutants_of(f):
